@@ -274,7 +274,7 @@ def make_bases(ctx):
     # the family whose highest template has no spikes
     unused_top = [a for a in itertools.product(range(nt - 1), repeat=ns) if len(set(a)) == nt - 1]
     unused_top = unused_top[ctx.seed % 3::max(1, len(unused_top) // 3)][:3]
-    geos = [('line', 4), ('col14', 14), ('twoshank_close', 14)]
+    geos = [('line', 4), ('col14', 14), ('twoshank_close', 14), ('line14_eps', 14)]
     for a in list(assigns) + list(unused_top):
         for gi, (geo, nc) in enumerate(geos):
             for wh in ('identity', 'mixing', 'gains'):
@@ -282,6 +282,8 @@ def make_bases(ctx):
                     continue   # quick: geometry and whitening alternate over the bases
                 if geo == 'twoshank_close' and (wh == 'gains' or (not ctx.thorough and sum(a) % 3)):
                     continue   # two interleaved shanks: a third of the bases in the quick tier
+                if geo == 'line14_eps' and (wh != 'mixing' or (not ctx.thorough and sum(a) % 3 != 1)):
+                    continue   # near-ties at the 12-channel cut-off: a third of the bases in the quick tier
                 if wh == 'gains' and geo != 'col14':
                     continue   # gains matter where the channel set can change (> 12 channels)
                 spec = {'n_spikes': ns, 'n_templates': nt, 'n_channels': nc, 'geometry': geo,
@@ -297,6 +299,9 @@ def make_bases(ctx):
                     # the template's channels: the threshold is "reaches", and 0 reaches 0)
                     spec['profile'] = [[3, 2, 0, 0], [0, 0, 2, 3], [1, 0, 3, 4]]
                     var = '/flat-channels'
+                if geo == 'line14_eps':
+                    # peaks on channels 6, 7 and 0: the channel sets of the first two end with a near-tie
+                    spec['profile'] = [[float(20 - abs(c - pk)) for c in range(14)] for pk in (6, 7, 0)]
                 if geo == 'col14' and sum(a) % 2 == 0:
                     spec['geometry'] = 'col14p_mm'     # coordinates in mm (sites less than one unit
                     # apart), numbered in a scattered order (neighbours are not adjacent indices)
